@@ -37,13 +37,23 @@ class CMAESDesigner(vza.PartiallySerializableDesigner):
   finished populations.
   """
 
-  def __init__(self, problem_statement: vz.ProblemStatement, **cma_kwargs):
+  def __init__(
+      self,
+      problem_statement: vz.ProblemStatement,
+      *,
+      seed: Optional[int] = None,
+      **cma_kwargs,
+  ):
     """Init.
 
     Args:
       problem_statement: Must use a flat DOUBLE-only search space.
+      seed: Random seed of CMA_ES_JAX. `None` (which is what the designer
+        policies pass when they were not given a seed) selects its default.
       **cma_kwargs: Keyword arguments for the CMA_ES_JAX class.
     """
+    if seed is not None:
+      cma_kwargs['seed'] = seed
     self._problem_statement = problem_statement
     self._metric_name = self._problem_statement.metric_information.item().name
 
